@@ -1,3 +1,4 @@
+mod directed;
 mod entropy;
 mod exec;
 mod gen;
@@ -337,6 +338,7 @@ fn cmd_run(prop: Prop, tier: Tier, opts: &std::collections::HashMap<String, Stri
         harness: cfg.harness,
         nontrivial: cfg.nontrivial,
         first_index: 0,
+        directed: directed::plans(prop),
     };
     let out = runner::run_batch(&bcfg, &known);
 
